@@ -273,11 +273,123 @@ def n6_loop_break_to_while(root):
     return n
 
 
+def _reads_local(n, lid):
+    return any(x["k"] == "Path" and x.get("res", {}).get("local") == lid for x in hirq.walk(n))
+
+
+def _assigned_places(n):
+    """names of locals / self fields assigned (or mutably borrowed / mutated through a method with a &mut receiver) inside n"""
+    out = set()
+    for x in hirq.walk(n):
+        tgt = None
+        if x["k"] in ("Assign", "AssignOp"):
+            tgt = x["l"]
+        elif x["k"] == "AddrOf" and x.get("mut"):
+            tgt = x["e"]
+        elif x["k"] == "MethodCall" and str(x.get("recv_ty", "")).startswith("&mut "):
+            tgt = x["recv"]
+        if tgt is None:
+            continue
+        cur = tgt
+        via_field = False
+        while cur["k"] in ("Index", "Field", "AddrOf", "Unary", "MethodCall"):
+            if cur["k"] == "Field" and cur["base"]["k"] == "Path" and cur["base"].get("res", {}).get("name") == "self":
+                out.add("self." + cur["name"])
+                via_field = True
+            cur = cur.get("base") or cur.get("e") or cur.get("recv")
+            if cur is None:
+                break
+        if cur is not None and cur["k"] == "Path" and "local" in cur.get("res", {}):
+            if cur["res"]["name"] == "self":
+                if not via_field:
+                    out.add("self.*")
+            else:
+                out.add(cur["res"]["name"])
+    return out
+
+
+def n7_counted_while_to_for(root):
+    """`let mut c = INIT; while c < N { BODY; c += 1; }` -> `for c in INIT..N { BODY }` when that is the same program: the step is the
+    last statement of the body and the only write to c, the body has no `continue` for this loop, N is not changed by the body, and
+    c is not read after the loop. The rewritten loop has exactly the shape rustc gives a `for` over a range, so every rule sees the
+    loop it would see had it been written with `for` (rules that handle a step in the middle of the body use rulelib.counted_loop)."""
+    n = 0
+    for blk in [x for x in hirq.walk(root) if x["k"] == "Block"]:
+        stmts = blk["stmts"]
+        for i in range(1, len(stmts) + (1 if "expr" in blk else 0)):
+            lp = stmts[i] if i < len(stmts) else blk["expr"]
+            let = stmts[i - 1]
+            if lp["k"] != "Loop" or lp.get("src") != "While" or let["k"] != "Let" or let["pat"].get("k") != "Bind" or "init" not in let:
+                continue
+            body = lp["body"]
+            first = body.get("expr") if not body["stmts"] else None
+            if first is None or first["k"] != "If" or "e" not in first or first["t"]["k"] != "Block" or "expr" in first["t"]:
+                continue
+            c = first["c"]
+            while c["k"] == "Block" and not c["stmts"] and "expr" in c:
+                c = c["expr"]
+            lid, name = let["pat"]["id"], let["pat"]["name"]
+            if c["k"] != "Binary" or c["op"] != "<" or c["l"]["k"] != "Path" or c["l"].get("res", {}).get("local") != lid:
+                continue
+            bound = c["r"]
+            inner = first["t"]["stmts"]
+            if not inner:
+                continue
+            step = inner[-1]
+            ok_step = step["k"] == "AssignOp" and step["op"] == "+=" and step["l"]["k"] == "Path" and step["l"]["res"].get("local") == lid \
+                and step["r"]["k"] == "Lit" and step["r"].get("v") in ("1", "1usize", "1u64", "1u32", "1i32", "1i64")
+            if not ok_step:
+                continue
+            rest = inner[:-1]
+            writes = [x for s_ in rest for x in hirq.walk(s_) if (x["k"] in ("Assign", "AssignOp") and x["l"]["k"] == "Path" and x["l"]["res"].get("local") == lid)
+                      or (x["k"] == "AddrOf" and x.get("mut") and x["e"]["k"] == "Path" and x["e"]["res"].get("local") == lid)]
+            conts = [x for s_ in rest for x in hirq.walk(s_) if x["k"] == "Continue" and x.get("target") == lp.get("id")]
+            if writes or conts or not _pure(bound) or _reads_local(bound, lid):
+                continue
+            assigned = set()
+            for s_ in rest:
+                assigned |= _assigned_places(s_)
+            reads_b = {x["res"]["name"] for x in hirq.walk(bound) if x["k"] == "Path" and "local" in x.get("res", {}) and x["res"]["name"] != "self"} | \
+                      {"self." + x["name"] for x in hirq.walk(bound) if x["k"] == "Field" and x["base"]["k"] == "Path" and x["base"].get("res", {}).get("name") == "self"}
+            if (reads_b & assigned) or ("self.*" in assigned and any(r_.startswith("self") for r_ in reads_b)) or any(x["k"] in ("Call", "MethodCall") for x in hirq.walk(bound)):
+                continue
+            later = stmts[i + 1:] + ([blk["expr"]] if "expr" in blk and i < len(stmts) else [])
+            if any(_reads_local(s_, lid) for s_ in later):
+                continue
+            sp = list(lp.get("sp", let["sp"]))
+            dsp = sp[:3] + [True, "desugar:ForLoop", "desugar:ForLoop"] + sp[6:]
+            ty = let["pat"].get("ty", "usize")
+            rng = {"k": "Struct", "res": {"def": "Struct", "path": "std::ops::Range"}, "ty": "std::ops::Range<%s>" % ty, "sp": dsp[:3] + [True, "desugar:RangeExpr", "desugar:RangeExpr"] + sp[6:],
+                   "fields": [{"name": "start", "e": let["init"], "shorthand": False}, {"name": "end", "e": bound, "shorthand": False}]}
+            pat = dict(let["pat"])
+            pat["mode"] = "BindingMode(No, Not)"
+            brk = {"k": "Break", "target": lp.get("id"), "sp": dsp, "ty": "!"}
+            nxt = {"k": "Call", "f": {"k": "Path", "res": {"def": "AssocFn", "path": "std::iter::Iterator::next"}, "sp": dsp}, "callee": "std::iter::Iterator::next",
+                   "args": [{"k": "AddrOf", "mut": True, "e": {"k": "Path", "res": {"local": -lid, "name": "iter"}, "sp": dsp}, "sp": dsp}], "substs": [], "resolved": "std::iter::Iterator::next", "sp": dsp, "ty": "std::option::Option<%s>" % ty}
+            inner_m = {"k": "Match", "src": "ForLoopDesugar", "e": nxt, "sp": dsp, "ty": "()", "arms": [
+                {"pat": {"k": "Struct", "res": {"def": "Variant", "path": "std::prelude::v1::None"}, "fields": [], "sp": dsp}, "body": brk},
+                {"pat": {"k": "Struct", "res": {"def": "Variant", "path": "std::prelude::v1::Some"}, "fields": [{"name": "0", "pat": pat}], "sp": dsp},
+                 "body": {"k": "Block", "stmts": rest, "unsafe": False, "sp": list(first["t"]["sp"]), "ty": "()"}}]}
+            new_lp = {"k": "Loop", "id": lp.get("id"), "src": "ForLoop", "sp": sp, "ty": "()", "body": {"k": "Block", "stmts": [inner_m], "unsafe": False, "sp": dsp, "ty": "()"}}
+            outer = {"k": "Match", "src": "ForLoopDesugar", "sp": sp, "ty": "()",
+                     "e": {"k": "Call", "f": {"k": "Path", "res": {"def": "AssocFn", "path": "std::iter::IntoIterator::into_iter"}, "sp": dsp}, "callee": "std::iter::IntoIterator::into_iter",
+                           "args": [rng], "substs": [], "resolved": "std::iter::IntoIterator::into_iter", "sp": dsp, "ty": "std::ops::Range<%s>" % ty},
+                     "arms": [{"pat": {"k": "Bind", "id": -lid, "name": "iter", "mode": "BindingMode(No, Mut)", "sp": dsp}, "body": new_lp}]}
+            if i < len(stmts):
+                stmts[i - 1:i + 1] = [outer]
+            else:
+                stmts[i - 1:i] = []
+                blk["expr"] = outer
+            n += 1
+            break
+    return n
+
+
 def normalise(root):
     """all normalisations to a fixpoint (bounded); returns the number of rewrites"""
     total = 0
     for _ in range(4):
-        n = n1_bool_match(root) + n3_match_of_known(root) + n2_tuples(root) + n45_let_floating(root) + n6_loop_break_to_while(root)
+        n = n1_bool_match(root) + n3_match_of_known(root) + n2_tuples(root) + n45_let_floating(root) + n6_loop_break_to_while(root) + n7_counted_while_to_for(root)
         total += n
         if not n:
             break
